@@ -213,3 +213,73 @@ def run_arg_case(op, twice):
     if op == 3 and "reuse-accepted" in outcomes:
         return False
     return len(set(outcomes[::2] if op == 3 else outcomes)) == 1      # the same call on the same input gives the same outcome
+
+
+# ---- thorough: every class of both versions (enriched instance): argument snapshots and copy independence
+def _class_docs():
+    from props import h_C01, h_C03
+    out = []
+    for ver, cat, name, cls, kw in h_C03.CLASSES:
+        try:
+            doc = h_C01.enrich(ver, cat, name, cls, h_C03.base_doc(cls, kw), 2)
+            if "revoked" in doc:
+                doc["revoked"] = False
+            out.append((ver, cat, name, cls, doc))
+        except Exception:  # noqa: BLE001
+            continue
+    return out
+
+
+_DOCS = []
+NCLS13 = 59
+
+
+def every_class(ci: int) -> bool:
+    """
+    pre: 0 <= ci < NCLS13
+    post: _
+    """
+    ci = pick(ci, NCLS13)
+    with Native():
+        ok = run_every_class_case(ci)
+    V.reached()
+    return ok
+
+
+def run_every_class_case(ci):
+    if not _DOCS:
+        _DOCS.extend(_class_docs())
+    if ci >= len(_DOCS):
+        return True
+    ver, cat, name, cls, doc = _DOCS[ci]
+    arg = json.loads(json.dumps(doc))
+    snap = json.dumps(arg, sort_keys=True)
+
+    def parse_it():
+        return stix2.parse(arg, version=ver) if cat == "objects" else stix2.parse_observable(arg, version=ver)
+    o = parse_it()
+    o2 = parse_it()                                 # the same dictionary reused
+    if json.dumps(arg, sort_keys=True) != snap or o != o2:
+        return False
+    cls(**arg)
+    if json.dumps(arg, sort_keys=True) != snap:
+        return False
+    before = o.serialize()
+    c = copy.deepcopy(o)
+    mine = {id(x) for _, x in containers(o, [])}
+    if c != o or any(id(x) in mine for _, x in containers(c, [])):
+        return False
+    if {"created", "modified", "revoked"} <= set(cls._properties):
+        n = o.new_version()
+        if any(id(x) in mine for _, x in containers(n, [])):
+            return False
+        o.revoke()
+        if hasattr(o, "add_markings"):
+            m = o.add_markings(M1)
+            if any(id(x) in mine for _, x in containers(m, [])):
+                return False
+    if name != "bundle":
+        stix2.v21.Bundle(o, allow_custom=True) if ver == "2.1" else stix2.v20.Bundle(o, allow_custom=True)
+        if "id" in o:
+            MemoryStore([o]).query()
+    return o.serialize() == before and json.dumps(arg, sort_keys=True) == snap
